@@ -135,17 +135,22 @@ def validate_translator(rec, system, option="euler", n_iter=2, dt=0.0078125, des
 
 # ------------------------------------------------------------------------------------------------
 # Euler: one step of the real engine == x + dt * law   (C01 leg 1, C03 engine leg, C15/C16 equivalences)
-def euler_step_terms(system, st, max_paths=64, fields=("state", "k", "D", "edge_sfc", "edge_dst", "dt"), dt_tag=0.00390625):
+def euler_step_terms(system, st, max_paths=64, fields=("state", "k", "D", "edge_sfc", "edge_dst", "dt"), dt_tag=0.00390625, sym_chem=None):
     """Symbolically executes initialize + one iterate + output fetch of the Euler engine through the
     tag-traced ABI. Yields (path, sample0 terms, sample1 terms, t terms, named) per feasible path."""
     script = make_script(system, "euler", dt_tag)
     kind, named, _ = record_setup(script, "euler")
     named_s = symbolize(kind, named, st, fields)
     ns, nc = len(system.network.species), system.space.size()
+    if sym_chem is not None:
+        named_s["chstt"] = list(sym_chem)
 
     def body(I):
         for c in st.positivity():
             I.assume(c)
+        if sym_chem is not None:
+            for c in sym_chem:
+                I.assume(z3.And(c >= 0, c <= 1))
         dts = named_s["dt"]
         if is_sym(dts):
             I.assume(dts < 1)
@@ -159,17 +164,26 @@ def euler_step_terms(system, st, max_paths=64, fields=("state", "k", "D", "edge_
         yield pr, named_s
 
 
-def check_euler_step(rec, netname, spacedesc, chem=None, label="euler step = law", fields=("state", "k", "D", "edge_sfc", "edge_dst", "dt")):
-    """Obligations: sample 0 = input state (layout), sample 1 = x + dt*law for every (species, cell)."""
-    desc = catalogue.describe(netname, spacedesc) + ("" if chem is None else " chem=" + "".join(map(str, chem)))
+def check_euler_step(rec, netname, spacedesc, chem=None, label="euler step = law", fields=("state", "k", "D", "edge_sfc", "edge_dst", "dt"),
+                     sym_chem=False, per_path=None):
+    """Obligations: sample 0 = input state (layout), sample 1 = x + dt*law for every (species, cell).
+    sym_chem: the chemostat flags handed to the ABI are solver variables in {0,1} (all 2^(S*C) maps at once);
+    the expected value is then  If(flag(s,i), x, x + dt*law_without_flags)."""
+    desc = catalogue.describe(netname, spacedesc) + ("" if chem is None else " chem=" + "".join(map(str, chem))) + (" chem=symbolic" if sym_chem else "")
     system = catalogue.build(netname, spacedesc, None, chem)
     rec.structure(desc)
     st = SymTab(concrete=volumes_of(system))
     X = state_term(system, st)
-    law = rate_law(system, st, X, with_chemostats=True)
     ns, nc = len(system.network.species), system.space.size()
+    flags = None
+    if sym_chem:
+        flags = [z3.Int("chstt_%d_%d" % (s, i)) for s in range(ns) for i in range(nc)]   # species-major, as RDSystem.chemostats
+        raw = rate_law(system, st, X, with_chemostats=False)
+        law = {(s, i): z3.If(flags[s * nc + i] != 0, z3.RealVal(0), raw[(s, i)]) for s in range(ns) for i in range(nc)}
+    else:
+        law = rate_law(system, st, X, with_chemostats=True)
     npaths = 0
-    for pr, named_s in euler_step_terms(system, st, fields=fields):
+    for pr, named_s in euler_step_terms(system, st, fields=fields, sym_chem=flags):
         if pr.I is None:
             rec.oblig(label, "inconclusive", pr.ended, structure=desc)
             continue
@@ -187,6 +201,10 @@ def check_euler_step(rec, netname, spacedesc, chem=None, label="euler step = law
         dt = named_s["dt"]
         vac, _ = I.check()
         rec.vacuity_witness("euler-step " + desc, vac == "sat", vac)
+        if per_path:
+            per_path(I, system, [data[s * nc + i] for s in range(ns) for i in range(nc)],
+                     [data[ns * nc + s * nc + i] for s in range(ns) for i in range(nc)], "euler " + desc)
+            continue
         for s in range(ns):
             for i in range(nc):
                 x0 = I.toreal(data[s * nc + i])
@@ -202,7 +220,10 @@ def check_euler_step(rec, netname, spacedesc, chem=None, label="euler step = law
                 elif status == "inconclusive":
                     rec.oblig(name, "inconclusive", "solver unknown/timeout", secs, desc)
                 else:
-                    ok, what, case = replay_euler_step(netname, spacedesc, chem, st, m, s, i)
+                    rchem = chem
+                    if flags is not None:
+                        rchem = [int(model_value(m, f)) for f in flags]
+                    ok, what, case = replay_euler_step(netname, spacedesc, rchem, st, m, s, i)
                     rec.oblig(name, "violated", what, secs, desc)
                     sig = "euler-step:%s:%s" % (netname, "grid" if spacedesc[0] == "grid" else "graph")
                     rec.violation(sig, "Euler engine step differs from the rate law: " + what, case, replayed=ok)
